@@ -252,3 +252,26 @@ impl<K: Key, V> HashMap<K, V> {
             },
     { unimplemented!() }
 }
+
+// ---- bytes::BytesMut (E7): a growable byte buffer
+#[verifier::external_body]
+pub struct BytesMut { b: Vec<u8> }
+
+impl View for BytesMut {
+    type V = Seq<u8>;
+    uninterp spec fn view(&self) -> Seq<u8>;
+}
+
+impl BytesMut {
+    #[verifier::external_body]
+    pub fn with_capacity(n: usize) -> (r: BytesMut) ensures r@ == Seq::<u8>::empty() { unimplemented!() }
+
+    #[verifier::external_body]
+    pub fn put_u8(&mut self, v: u8) ensures final(self)@ == old(self)@.push(v) { unimplemented!() }
+
+    #[verifier::external_body]
+    pub fn put_slice(&mut self, s: &[u8]) ensures final(self)@ == old(self)@ + s@ { unimplemented!() }
+
+    #[verifier::external_body]
+    pub fn freeze(self) -> (r: Bytes) ensures r@ == self@ { unimplemented!() }
+}
